@@ -294,6 +294,8 @@ def c07(prop, tier, seed, work):
              stores=STORES3, obs=["refs", "filters"], mc_contents=["m1", "a1", "a2"], mc_depth=(4, 5), nrepos=1),
         dict(name="refsgc", profile="gcrefs", contents=["m1", "m2", "a1", "a2", "a3", "a4", "a7"], algs=["sha256"], depth=(24, 40), num=(12, 150),
              stores=["mem", "dir"], obs=["refs"], nrepos=1, cfg={"withSubj": True, "emptyRepo": False}),
+        dict(name="refsgc2", profile="gcrefs", contents=["m1", "a1", "a2"], algs=["sha256"], depth=(20, 30), num=(15, 150),
+             stores=["mem", "dir"], obs=["refs"], nrepos=1, cfg={"withSubj": True, "emptyRepo": False}),
         dict(name="refspage1", profile="refs", contents=["m1", "a1", "a2", "a5", "a9"], algs=["sha256"], depth=(22, 36), num=(10, 120),
              stores=["mem", "dir"], obs=["refs", "filters"], nrepos=1, cfg={"refLimit": 600}),
         dict(name="refspage2", profile="refs", contents=["m1", "a1", "a2", "a5", "a9"], algs=["sha256"], depth=(22, 36), num=(10, 120),
@@ -338,6 +340,11 @@ def gc_scenarios(tier, stores):
                     scs.append(dict(name=name, profile="gc", contents=GC_B, algs=["sha256"], depth=(26, 40), num=(4, 50),
                                     stores=stores, obs=[], nrepos=1,
                                     cfg={"untagged": u, "dangling": d, "withSubj": w, "grace": g, "emptyRepo": False}))
+    # a tiny universe under the default referrer policy: referrers of a subject that is only a blob, collections inside
+    # the grace period, restarts
+    for g in (True, False):
+        scs.append(dict(name="gcC-%s" % ("G" if g else "g"), profile="gc", contents=["m1", "a1", "a2"], algs=["sha256"], depth=(20, 30), num=(15, 150),
+                        stores=stores, obs=[], nrepos=1, cfg={"untagged": False, "dangling": False, "withSubj": True, "grace": g, "emptyRepo": False}))
     scs[0]["mc_contents"] = ["m1", "a1"]
     scs[0]["mc_depth"] = (4, 5)
     return scs
